@@ -37,8 +37,44 @@ OpEventVerdict(c, e) ==
                     e.params, e.raised, e.res.keys, DecodeCoefs(e.ring, e.res.coefs),
                     DecodeMV(c, e.ring, e.witness))
 
+\* JSON program tree -> record tree with decoded constants
+RECURSIVE DecodeTree(_, _)
+DecodeTree(ring, j) ==
+  IF j.n = "arg" THEN [n |-> "arg", i |-> j.i]
+  ELSE IF j.n = "num" THEN [n |-> "num", v |-> DecodeCoef(ring, j.v)]
+  ELSE [n |-> j.n, c |-> [i \in DOMAIN j.c |-> DecodeTree(ring, j.c[i])], p |-> j.p]
+
+SameStored(a, b) == a.keys = b.keys /\ a.coefs = b.coefs
+
+(***************************************************************************)
+(* A call made in the middle of a history on a long-lived algebra (C09,    *)
+(* C10, C11, C13): besides the value clause of the operator,                *)
+(*   fresh      the same call on a freshly created algebra gave the same   *)
+(*              element (or the same exception)                              *)
+(*   frame      no operand and no previously returned multivector changed   *)
+(*   program    for a registered function: value = Sem(program)(args) and   *)
+(*              = the plain python function (direct)                         *)
+(***************************************************************************)
+CallEventVerdict(c, e) ==
+  LET args == [i \in DOMAIN e.args |-> DecodeMV(c, e.ring, e.args[i])]
+      res == DecodeMV(c, e.ring, e.res)
+      v1 == IF e.op = "prog" THEN
+               (IF e.raised # "" THEN (IF e.mayraise THEN "ok" ELSE "registered_function_raised")
+                ELSE IF ~MR!StoredOK(c, e.res.keys, e.res.coefs) THEN "result_not_well_formed"
+                ELSE IF e.hasdirect /\ ~MR!SameElement(res, DecodeMV(c, e.ring, e.direct)) THEN "registered_differs_from_plain_function"
+                ELSE IF e.hastree /\ ~MR!SameElement(res, MR!EvalTree(c, DecodeTree(e.ring, e.tree), args)) THEN "registered_differs_from_semantics_of_program"
+                ELSE "ok")
+            ELSE OpEventVerdict(c, e)
+  IN
+  IF v1 # "ok" THEN v1
+  ELSE IF e.hasfresh /\ e.fresh.raised # e.raised THEN "exception_differs_from_fresh_algebra"
+  ELSE IF e.hasfresh /\ e.raised = "" /\ ~MR!SameElement(res, DecodeMV(c, e.ring, e.fresh.res)) THEN "value_differs_from_fresh_algebra"
+  ELSE IF \E i \in DOMAIN e.before : ~SameStored(e.before[i], e.after[i]) THEN "operand_or_earlier_result_was_modified"
+  ELSE "ok"
+
 Verdict(e) ==
   CASE e.kind = "op" -> OpEventVerdict(CC, e)
+    [] e.kind = "call" -> CallEventVerdict(CC, e)
     [] e.kind = "opc" -> OpEventVerdict(Compile(BitCfg(e.u)), e)
     [] OTHER -> "unknown_event_kind"
 
